@@ -13,7 +13,7 @@ ID = 'C03'
 CRATES = ['jj-core']
 NATIVE = 'c03'
 BOUNDS = {
-    'quick': '(a) 1..3 matched regions x 2..3 inputs, all offsets 64-bit symbolic; (c) by_line on 2 inputs of <=2 lines (1 symbolic byte per line, with/without final newline), 3 inputs of 1 line; by_word/diff()/unrefined on 2 inputs of 1+1, 2+1, 1+2 fully symbolic bytes',
+    'quick': 'comparators: for_tokenizer with line/word tokenizer x {ignore-whitespace-amount, ignore-all-whitespace, exact} on 2 inputs of <=2 lines (free non-LF bytes, with/without final newline); (a) 1..3 matched regions x 2..3 inputs, all offsets 64-bit symbolic; (c) by_line on 2 inputs of <=2 lines (1 symbolic byte per line, with/without final newline), 3 inputs of 1 line; by_word/diff()/unrefined on 2 inputs of 1+1, 2+1, 1+2 fully symbolic bytes',
     'thorough': '(a) up to 4 regions x 3 inputs; (c) by_line up to 3+2 lines and 3 inputs x 2 lines; by_word/diff()/unrefined on 2 inputs up to 3+2 bytes',
 }
 ASSUMPTIONS = [
@@ -31,7 +31,7 @@ def jobs(tier):
     out = []
     a_cases = [(1, 1), (2, 1), (2, 2), (3, 1)] + ([(3, 2), (4, 1), (4, 2)] if tier == 'thorough' else [])
     for nmid, nothers in a_cases:
-        out.append(dict(name=f'a-regions{nmid}-inputs{nothers + 1}', what='a', nmid=nmid, nothers=nothers, rung=0 if nmid * (nothers + 1) <= 4 else 1, weight=10 ** nmid))
+        out.append(dict(name=f'a-regions{nmid}-inputs{nothers + 1}', what='a', nmid=nmid, nothers=nothers, rung=0 if nmid * (nothers + 1) <= 4 else 2, weight=10 ** nmid))
     L = lambda n, nl=True: (n, nl)
     line_shapes = [
         [[L(1)], [L(1)]], [[L(1), L(1)], [L(1)]], [[L(1)], [L(1), L(1)]], [[L(1), L(1)], [L(1), L(1)]], [[L(1), L(1)], [L(1), L(1, False)]],
@@ -41,11 +41,19 @@ def jobs(tier):
         line_shapes += [[[L(1), L(1), L(1)], [L(1), L(1)]], [[L(1), L(1)], [L(1), L(1), L(1)]], [[L(1), L(1)], [L(1), L(1)], [L(1), L(1)]], [[L(2), L(1)], [L(1), L(2)]]]
     for i, sh in enumerate(line_shapes):
         n = sum(len(x) for x in sh)
-        out.append(dict(name='c-by_line-' + '_'.join(''.join(f'{n_}{"n" if nl else "x"}' for n_, nl in inp) or 'e' for inp in sh), what='c', api='by_line', shape=sh, rung=1 if n <= 4 else 2, weight=5 ** n))
+        out.append(dict(name='c-by_line-' + '_'.join(''.join(f'{n_}{"n" if nl else "x"}' for n_, nl in inp) or 'e' for inp in sh), what='c', api='by_line', shape=sh, rung=0 if n <= 2 else (1 if n <= 3 else 2), weight=5 ** n))
     byte_shapes = [(1, 1), (2, 1), (1, 2)] + ([(2, 2), (3, 1), (1, 3), (3, 2), (2, 3)] if tier == 'thorough' else [])
     for api in ('by_word', 'diff', 'unrefined'):
         for sh in byte_shapes:
-            out.append(dict(name=f'c-{api}-bytes' + '_'.join(map(str, sh)), what='c', api=api, shape=[[(k, False)] for k in sh], rung=2 if sum(sh) <= 3 else 3, weight=8 ** sum(sh)))
+            out.append(dict(name=f'c-{api}-bytes' + '_'.join(map(str, sh)), what='c', api=api, shape=[[(k, False)] for k in sh], rung=2 if sum(sh) <= 2 else 3, weight=8 ** sum(sh)))
+    cmp_shapes = [[[L(1), L(1, False)], [L(1), L(1)]], [[L(1)], [L(1, False)]], [[L(2)], [L(1)]], [[L(1), L(1)], [L(1)]]]
+    if tier == 'thorough': cmp_shapes += [[[L(2), L(1, False)], [L(1), L(2)]], [[L(1), L(1), L(1, False)], [L(1), L(1)]]]
+    for tok in ('find_line_ranges', 'find_word_ranges'):
+        for cmp_ in ('CompareBytesIgnoreWhitespaceAmount', 'CompareBytesIgnoreAllWhitespace', 'CompareBytesExactly'):
+            for sh in cmp_shapes:
+                n = sum(k for inp in sh for k, _ in inp)
+                out.append(dict(name=f'c-tok-{tok}-{cmp_}-' + '_'.join(''.join(f'{n_}{"n" if nl else "x"}' for n_, nl in inp) or 'e' for inp in sh), what='c', api='for_tokenizer', tok=tok, cmp=cmp_,
+                                shape=sh, rung=(1 if tok == 'find_line_ranges' else (2 if n <= 2 else 3)), weight=8 ** n, split=('enumerate', 8) if n >= 4 else None))
     return out
 
 def run_job(ix, job, tier):
@@ -114,15 +122,20 @@ def job_c(ix, job):
             if nl: bs.append(10)
         inputs.append(bs)
     syms = [b for bs in inputs for b in bs if not isinstance(b, int)]
-    line_mode = api == 'by_line'
+    line_mode = api == 'by_line' or api == 'for_tokenizer'
     pre = zand([b != 10 for b in syms]) if line_mode else None          # line structure is the stated shape; contents are free non-LF bytes
     hunk_ranges = ix.find_method(F, 'ContentDiff', 'hunk_ranges'); it_next = ix.find_method(F, 'DiffHunkRangeIterator', 'next', trait='Iterator')
     if api == 'diff': fn = ix.find('diff', file=F)
     else: fn = ix.find_method(F, 'ContentDiff', api)
+    cmp_ty = job.get('cmp', 'CompareBytesExactly')
+    cmp_eq = ix.find_method(F, cmp_ty, 'eq', trait='CompareBytes')
     hit_next = ix.find_method(F, 'DiffHunkIterator', 'next', trait='Iterator')
     def run(e):
         refs = [Ref([Str(list(bs))], 0) for bs in inputs]
-        d = e.call_mir(fn, [It('list', l=refs, pos=0)], targs=['[u8]'])
+        if api == 'for_tokenizer':
+            from mirsym.engine import FnItem
+            d = e.call_mir(fn, [It('list', l=refs, pos=0), FnItem(job['tok']), Agg([], cmp_ty)], targs=['[u8]'])
+        else: d = e.call_mir(fn, [It('list', l=refs, pos=0)], targs=['[u8]'])
         hunks = []
         if api == 'diff':
             for h in d.l:
@@ -133,9 +146,15 @@ def job_c(ix, job):
             h = e.call_mir(it_next, [Ref([it], 0)])
             if h.v == 'None': break
             hunks.append((h.f[0].f[0].v, [(r.f[0], r.f[1]) for r in h.f[0].f[1].l]))
-        return ('ranges', hunks)
+        eqs = []
+        if cmp_ty != 'CompareBytesExactly':
+            for k, rs in hunks:
+                if k != 'Matching': continue
+                for i in range(1, len(rs)):
+                    eqs.append(e.call_mir(cmp_eq, [Ref([Agg([], cmp_ty)], 0), SliceRef(list(inputs[0]), rs[0][0], rs[0][1]), SliceRef(list(inputs[i]), rs[i][0], rs[i][1])]))
+        return ('ranges', hunks, eqs)
     def obligations(kind, out, pc, e):
-        mode, hunks = out
+        mode, hunks = out[0], out[1]
         alt = all(a[0] != b[0] for a, b in zip(hunks, hunks[1:])) and all(len(h[1]) == len(inputs) for h in hunks)
         yield 'matching and differing hunks alternate; one slice per input', alt
         if not alt: return
@@ -152,15 +171,16 @@ def job_c(ix, job):
             yield 'concatenating the slices reproduces every input', zand([same_bytes(cat[i], inputs[i]) for i in range(len(inputs))])
             slices = hunks
         yield 'no hunk is empty on every side', all(any(len(s) > 0 for s in sl) for k, sl in slices)
-        yield 'matching hunks are equal on all sides', zand([same_bytes(sl[0], s) for k, sl in slices if k == 'Matching' for s in sl[1:]])
+        if cmp_ty == 'CompareBytesExactly': yield 'matching hunks are equal on all sides', zand([same_bytes(sl[0], s) for k, sl in slices if k == 'Matching' for s in sl[1:]])
+        else: yield 'matching hunks are equal under the chosen comparison', zand([zbool(x) for x in out[2]])
     def witness(m, k, out):
-        inp = dict(api=api, inputs=[[mval(m, b) for b in bs] for bs in inputs])
+        inp = dict(api=api, inputs=[[mval(m, b) for b in bs] for bs in inputs], tok=job.get('tok'), cmp=job.get('cmp'))
         if k != 'ok': return dict(input=inp, expect=None)
-        mode, hunks = out
+        mode, hunks = out[0], out[1]
         if mode == 'ranges': exp = [[kk, [[a, b] for a, b in rs]] for kk, rs in hunks]
         else: exp = [[kk, [[mval(m, b) for b in s] for s in sl]] for kk, sl in hunks]
         return dict(input=inp, expect=exp)
-    res = explore_job(ix, job['name'], run, obligations, pre=pre, witness=witness, deadline=job.get('deadline'), keep_results=True)
+    res = explore_job(ix, job['name'], run, obligations, pre=pre, witness=witness, deadline=job.get('deadline'), keep_results=True, split=job.get('split'))
     determinism(res, syms)
     res.results = None
     return res
@@ -177,19 +197,21 @@ def same_bytes(a, b):
 def determinism(res, syms):
     """two explored paths with different outputs must not share an input: (exists env. PC_p) and (exists env'. PC_q) unsat on the input bytes"""
     results = getattr(res, 'results', None)
-    if not results or len(results) > 400 or res.inconclusive: return
+    if not results or len(results) > 3000 or res.inconclusive: return
     from mirsym.models2 import _hash_fns
     oks = [(out, pc) for kind, out, pc in results if kind == 'ok']
     def key(out): return repr(out)
     seed = z3.Int('hash_seed'); seed2 = z3.Int('hash_seed__2')
     fmap = [(f, z3.Function(f.name() + '__2', *[f.domain(i) for i in range(f.arity())], f.range())(*[z3.Var(i, f.domain(i)) for i in range(f.arity())])) for f in _hash_fns.values()]
-    for (o1, p1), (o2, p2) in itertools.combinations(oks, 2):
-        if key(o1) == key(o2): continue
+    groups = {}
+    for o, pc in oks: groups.setdefault(key(o), (o, []))[1].append(z3.And(*pc) if pc else z3.BoolVal(True))
+    gl = list(groups.values())
+    def second_run(f):
+        q = z3.substitute(f, (seed, seed2))
+        return z3.substitute_funs(q, *fmap) if fmap else q
+    for (o1, p1), (o2, p2) in itertools.combinations(gl, 2):
         res.obligations += 1
-        q = z3.And(*p2) if p2 else z3.BoolVal(True)
-        q = z3.substitute(q, (seed, seed2))
-        if fmap: q = z3.substitute_funs(q, *fmap)
-        s = z3.Solver(); s.set('timeout', 30000); s.add(*p1); s.add(q)
+        s = z3.Solver(); s.set('timeout', 60000); s.add(z3.Or(*p1)); s.add(second_run(z3.Or(*p2)))
         r = s.check()
         if r == z3.unsat: res.discharged += 1
         elif r == z3.sat:
